@@ -327,7 +327,7 @@ Definition has_mixed_encoding (s : list item) : bool :=
        (the delete notification of such a leaf names only the elem part)
     (class 2, -proto_file, is decided at the CLI step) *)
 Definition stream_class (c : case) (name : string) (notfound : bool) : N :=
-  if notfound && defect_C01_1 then 1%N
+  if notfound then (if defect_C01_1 then 1%N else 0%N)
   else if has_path_origin (stream_of c name) then 3%N
   else if has_negzero (stream_of c name) then 4%N
   else if has_mixed_encoding (stream_of c name) then 5%N
